@@ -1156,6 +1156,16 @@ psf_binheader_readf (SF_PRIVATE *psf, char const *format, ...)
 
 			case 'j' :	/* Seek to position from current position. */
 					count = va_arg (argptr, size_t) ;
+					/*
+					** The parsers step back by 3 or 4 bytes to resynchronise. Any other
+					** negative value is a chunk size of 2 GiB or more that did not fit the
+					** int : 'skipping' it would go backwards in the cached header and the
+					** same chunks would be parsed again, for ever.
+					*/
+					if (count < -16)
+					{	psf_log_printf (psf, "*** Cannot skip %u bytes of header.\n", (unsigned) count) ;
+						break ;
+						} ;
 					header_seek (psf, count, SEEK_CUR) ;
 					read_bytes = count ;
 					break ;
